@@ -877,6 +877,11 @@ fn value_grid(rng: &mut ChaCha8Rng) -> Vec<SpyVal> {
         v.push(SpyVal::Str("y".repeat(n)));
         v.push(SpyVal::Str("é".repeat(n)));
     }
+    // strings made of the first and last printable characters (replacement logic that steps to a
+    // neighbouring character leaves the printable range there)
+    for c in [' ', '!', '}', '~'] {
+        v.push(SpyVal::Str(c.to_string().repeat(8)));
+    }
     // short values again after the long ones (scratch state left behind by a long value)
     v.push(SpyVal::Str("hello".to_string()));
     v.push(SpyVal::Str("z".to_string()));
@@ -988,6 +993,11 @@ pub const EDGE_I32: [i32; 22] = [
 
 fn integer_edge_grid() -> Vec<(Entropy, &'static str)> {
     let mut v = vec![];
+    // a source stuck at one byte value, for every value: every draw of the call yields the same
+    // residue (the draw that collides with what is already there, twice in a row)
+    for b in 0..=255u8 {
+        v.push((Entropy::Bytes(vec![b; 24]), "stuck_byte_source"));
+    }
     for bg in [0x00u8, 0xff] {
         for at in 0..=12usize {
             for e in EDGE_I32 {
